@@ -179,7 +179,10 @@ def run (line : String) : String :=
     match parseFin f, (if d.startsWith "d=" then unhex (d.drop 2).toString else none) with
     | some f, some d => runKseq f d
     | _, _ => "bad-op"
-  | "cmd" :: rest => if rest.getLast? = some "none" then "exit0" else "exit-nonzero"
+  | "cmd" :: rest =>
+    -- `zfin=clean`: the input goes through zlib (gzip on the standard input) and zlib itself delivers the damaged file with a
+    -- clean end (verdict of the external library, data for the model: the toolkit reports every error zlib reports)
+    if rest.getLast? = some "none" ∨ rest.getLast? = some "zfin=clean" then "exit0" else "exit-nonzero"
   | _ => "bad-op"
 
 end ObiVerif.Driver.C17
